@@ -59,7 +59,7 @@ var Check = &vrt.Check{
 // ---------------------------------------------------------------------------------------------
 // scenarios
 
-var opNames = []string{"ProcessInbound-new", "ProcessInbound-dup", "ProcessInbound-replace", "AddOut-new", "AddOut-replace", "AddOut-resend", "SetSent", "SetUnread-true", "SetUnread-false", "ProcessInbound-longmid", "ProcessInbound-globmid"}
+var opNames = []string{"ProcessInbound-new", "ProcessInbound-dup", "ProcessInbound-replace", "AddOut-new", "AddOut-replace", "AddOut-resend", "SetSent", "SetSent-rejected", "SetUnread-true", "SetUnread-false", "ProcessInbound-longmid", "ProcessInbound-globmid"}
 
 var sizes = map[string][2]int{"small": {30, 0}, "medium": {900, 0}, "large": {3000, 1500}}
 var sizeNames = []string{"small", "medium", "large"}
@@ -195,6 +195,8 @@ func (sc scenario) crashSpec(dir string) mboxkit.CrashSpec {
 		sp.Msg = &t
 	case "SetUnread":
 		sp.Unread = sc.Op == "SetUnread-true"
+	case "SetSent":
+		sp.Rejected = sc.Op == "SetSent-rejected"
 	}
 	return sp
 }
@@ -252,7 +254,7 @@ func (sc scenario) buildPreRegular(dir string) error {
 		}
 		h.SetSent(sc.mid(), false)
 		return nil
-	case "SetSent":
+	case "SetSent", "SetSent-rejected":
 		return h.AddOut(sc.target("new").Build())
 	case "SetUnread-false", "SetUnread-true":
 		if err := h.ProcessInbound(sc.target("new").Build()); err != nil {
